@@ -664,6 +664,12 @@ def layout_programs(cond: Any, cond2: Optional[Any] = None) -> List[Tuple[str, s
     out.append(("dowhile-call", prog(["top:", "callsub sub"] + c2 + ["bnz top", "int 1", "return", "sub:"] + c + ["bz back", "int 1", "return", "back:", "retsub"])))
     out.append(("dowhile-call-2", prog(["int 0", "top:", "callsub sub", "int 1", "+", "dup", "int 3", "<", "bnz top", "pop"] + c + ["assert", "int 1", "return", "sub:"] + c2 + ["bz back", "int 1", "return", "back:", "retsub"])))
     out.append(("loop-call-in-body", prog(["top:"] + c2 + ["bz out", "callsub sub", "b top", "out:", "int 1", "return", "sub:"] + c + ["bz back", "int 1", "return", "back:", "retsub"])))
+    # a shared helper called from the loop body and again after the loop; the check guards the loop body only
+    out.append(("shared-sub-loop-then-call", prog(["top:"] + c2 + ["bz done"] + c + ["assert", "callsub step", "b top", "done:", "callsub step", "int 1", "return", "step:", "int 7", "pop", "retsub"])))
+    out.append(("shared-sub-loop-then-call-bnz", prog(["top:"] + c2 + ["bnz body", "callsub step", "int 1", "return", "body:"] + c + ["assert", "callsub step", "b top", "step:", "int 7", "pop", "retsub"])))
+    # a shared helper with two different continuations: the first call site's continuation checks, the second approves
+    out.append(("shared-sub-two-continuations", prog(["txn NumAppArgs", "bz second", "callsub helper"] + c + ["assert", "int 1", "return", "second:", "callsub helper", "int 1", "return", "helper:", "int 7", "pop", "retsub"])))
+    out.append(("shared-sub-two-continuations-2", prog(["callsub helper"] + c2 + ["bz second"] + c + ["assert", "int 1", "return", "second:", "callsub helper", "int 1", "return", "helper:", "int 7", "pop", "retsub"])))
     # switch / match dispatch
     out.append(("switch", prog(["txn NumAppArgs", "switch a b", "err", "a:"] + c + ["assert", "int 1", "return", "b:", "int 1", "return"])))
     out.append(("match", prog(["int 3", "int 5", "txn NumAppArgs", "match a b", "err", "a:"] + c + ["assert", "int 1", "return", "b:", "int 1", "return"])))
